@@ -215,6 +215,22 @@ fn tris_str(t: &Triangulation3D) -> String {
     s
 }
 
+/// `get_trilist()` against the slots of the verif hook: `None` when they agree (same length, same corners in the same order)
+fn trilist_differs(t: &Triangulation3D) -> Option<String> {
+    let st = t.verif_state();
+    let tl = t.get_trilist();
+    if tl.len() != st.len() {
+        return Some(format!("{} {}", tl.len(), st.len()));
+    }
+    for (i, (tr, p)) in tl.iter().zip(st.iter()).enumerate() {
+        let same = |a: Point3D, b: Point3D| a.x.to_bits() == b.x.to_bits() && a.y.to_bits() == b.y.to_bits() && a.z.to_bits() == b.z.to_bits();
+        if !(same(tr.a(), p.vertices[0]) && same(tr.b(), p.vertices[1]) && same(tr.c(), p.vertices[2])) {
+            return Some(format!("{} {} slot {}", tl.len(), st.len(), i));
+        }
+    }
+    None
+}
+
 fn valid_area_sum(t: &Triangulation3D) -> f64 {
     t.verif_state().iter().filter(|p| p.valid).map(|p| p.area as f64).sum()
 }
@@ -528,6 +544,11 @@ fn mesh_case(mp: &MPoly, refine: Option<(Float, Float)>, show: Show) -> String {
         Oc::Err => "err\nerr\n\n0\n0".to_string(),
         Oc::Panic(k) => format!("panic\npanic\n{}\n0\n0", k),
         Oc::Ok(t) => {
+            // what a user sees is `get_trilist()`: it must be the triangles of the slots, slot by slot (the verif hook shows
+            // the same slots with their bookkeeping)
+            if let Some(d) = trilist_differs(&t) {
+                return format!("trilist-differs {}\ntrilist-differs\n\n0\n0", d);
+            }
             let body = match show {
                 Show::Full => state_str(&t),
                 Show::Outcome => format!("{} {}", t.n_triangles(), t.n_valid_triangles()),
